@@ -40,6 +40,7 @@ def base_table():
     n = len(pdf)
     pdf["rid"] = np.arange(n)
     pdf["k"] = (np.arange(n) * 7) % 6
+    pdf["perm"] = (np.arange(n) * 37) % n  # a permutation of 0..n-1 (n = 81): a sort key without ties
     pdf["s"] = pd.array([None if i % 5 == 0 else "ab"[i % 2] for i in range(n)], dtype="string[pyarrow]")
     pdf.index = pd.Index(np.arange(n) + 10, name=None)
     return pdf
@@ -63,6 +64,9 @@ ATOMS = {
     "K": lambda f, c: f[c("k")] >= 3,
     "Q": lambda f, c: f[c("q")] > 0,
     "XR": lambda f, c: f[c("x#r")] > 0,  # the right frame's x in merges
+    # position dependent atoms: only meaningful where the row order is defined by the query
+    "P": lambda f, c: f[c("rid")].cumsum() > 1000,
+    "H": lambda f, c: f[c("x")].shift(1) > 0,
     "I": lambda f, c: f.index.to_series() > 40,
     "IC": lambda f, c: f[c("index")] > 40,
 }
@@ -144,7 +148,23 @@ def ctx_rename(df, side):
 
 
 def ctx_fillna(df, side):
-    return df.fillna({"z": 5.0}), IDENT
+    # every filled value changes the outcome of its atom (A: x > 0, C: z in [1, 2], D: w.isna())
+    return df.fillna({"z": 1.0, "x": 2.0, "w": 0.0}), IDENT
+
+
+def ctx_astype_trunc(df, side):
+    # the conversion changes values: 0.4 -> 0 (A), 1.6 -> 1 (C)
+    return df.fillna({"x": 0.4, "z": 1.6}).astype({"x": "int64", "z": "int64"}), IDENT
+
+
+def ctx_sort_perm(df, side):
+    return df.sort_values("perm"), IDENT
+
+
+def ctx_set_index_perm(df, side):
+    if side == "pandas":
+        return df.set_index("perm", drop=False).sort_index(), IDENT
+    return df.set_index("perm", drop=False), IDENT
 
 
 def ctx_astype(df, side):
@@ -189,9 +209,11 @@ def ctx_map_partitions(df, side):
 
 CONTEXTS = {
     "plain": ctx_plain, "proj": ctx_proj, "assign": ctx_assign, "rename": ctx_rename, "fillna": ctx_fillna, "astype": ctx_astype, "reset_index": ctx_reset_index,
-    "sort_values": ctx_sort, "set_index": ctx_set_index, "shuffle": ctx_shuffle, "repartition": ctx_repartition, "concat": ctx_concat, "map_partitions": ctx_map_partitions,
+    "sort_values": ctx_sort, "set_index": ctx_set_index, "astype_trunc": ctx_astype_trunc, "sort_perm": ctx_sort_perm, "set_index_perm": ctx_set_index_perm, "shuffle": ctx_shuffle, "repartition": ctx_repartition, "concat": ctx_concat, "map_partitions": ctx_map_partitions,
 }
-CORE_CTX = ["plain", "proj", "assign", "rename", "reset_index", "sort_values", "shuffle", "concat"]
+CORE_CTX = ["plain", "proj", "assign", "rename", "reset_index", "sort_values", "shuffle", "concat", "fillna", "astype_trunc"]
+# contexts whose result has a row order defined by the query (position dependent predicates are well posed there)
+ORDERED_CTX = ["plain", "proj", "assign", "rename", "fillna", "astype", "astype_trunc", "reset_index", "sort_values", "sort_perm", "set_index", "set_index_perm", "repartition", "map_partitions"]
 
 MERGE_PREDS = {
     "left-only": ["A", ("&", "B", "C"), ("|", "A", "D")],
@@ -229,6 +251,11 @@ def systematic(tier):
     for f in ["I", ("&", "I", "A"), ("|", "I", "D")]:
         for ctx in ("plain", "assign", "sort_values"):
             cases.append({"kind": "ctx", "ctx": ctx, "pred": f, "layout": 2})
+    # position dependent predicates (cumsum / shift) in the contexts with a defined row order
+    for ci, ctx in enumerate(ORDERED_CTX):
+        for fi, f in enumerate(["P", "~P", ("&", "A", "P"), ("|", "P", "D"), "H", ("&", "H", "~B"), ("|", "H", "P")]):
+            # shift() refuses frames with an empty partition (layout 1) with an explicit error
+            cases.append({"kind": "ctx", "ctx": ctx, "pred": f, "layout": [0, 2][(fi + ci) % 2] if "H" in atoms_of(f) else (fi + ci) % 3})
     # stacked filters
     lits = ["A", "~A", "B", "~B", "C", "D", "F"]
     for p, q in itertools.permutations(lits, 2):
